@@ -31,7 +31,7 @@ open VaxisModel.Props.C12
 /-- `emu_frame_shows` with the display's cursor clause supplied by the caller (from the previous
     cursor — `C01.cursor_as_requested` — or, after a resize, from `cursor_nonempty`), and with the
     frame `EFrame e e'`: the emulator stays on the screen it is on. -/
-theorem frame_shows_gen (dec : String → G) (cw : String → Nat) (hsp : cw "20" = 1) (hd : dec "20" = [32]) (hemp : dec "" = [])
+theorem frame_shows_gen (dec : String → G) (cw : String → Nat) (hsp : cw "20" = 1) (hd : dec "20" = [32]) (hemp : dec "" = []) (hlp : LpOk dec)
     (rows cols : Nat) (s : HState) (e : Emu) (fi : FrameIn) (hready : Ready s.t s.last rows cols)
     (hsim : DSim dec s.t e rows cols)
     (hag : fi.refresh = false → Agree cw emuCaps s.t s.last)
@@ -43,7 +43,7 @@ theorem frame_shows_gen (dec : String → G) (cw : String → Nat) (hsp : cw "20
       Shows dec cw fi e' ∧ EFrame e e' := by
   obtain ⟨r1, a1, g1, b1⟩ := C01Display.frame_step cw emuCaps hsp rows cols s fi hready hag hok
   have h59 : 59 ∉ dec "" := by rw [hemp]; simp
-  have hvoc := frame_ok dec cw (mkFrame emuCaps s fi) rfl rfl rfl rfl hsp (by rw [hd]; simp) h59 hok2.1 hok2.2
+  have hvoc := frame_ok dec cw (mkFrame emuCaps s fi) rfl rfl rfl rfl hsp (by rw [hd]; simp) h59 hlp hok2.1 hok2.2
   obtain ⟨e', hr, hs', hf⟩ := run_sim_frame cw _ s.t e hsim b1 hvoc
   refine ⟨e', hr, ⟨r1, hcur, hs'⟩, a1, ⟨?_, ?_⟩, hf⟩
   · have := hs'.grid
@@ -72,7 +72,7 @@ theorem frame_shows_gen (dec : String → G) (cw : String → Nat) (hsp : cw "20
       rw [← hvis]; exact hc
 
 /-- The same for the renderer as it is now (`renderFrameC`, no fitting hypothesis). -/
-theorem frame_shows_genC (dec : String → G) (cw : String → Nat) (hsp : cw "20" = 1) (hd : dec "20" = [32]) (hemp : dec "" = [])
+theorem frame_shows_genC (dec : String → G) (cw : String → Nat) (hsp : cw "20" = 1) (hd : dec "20" = [32]) (hemp : dec "" = []) (hlp : LpOk dec)
     (rows cols : Nat) (s : HState) (e : Emu) (fi : FrameIn) (hready : Ready s.t s.last rows cols)
     (hsim : DSim dec s.t e rows cols)
     (hag : fi.refresh = false → Agree cw emuCaps s.t s.last)
@@ -86,7 +86,7 @@ theorem frame_shows_genC (dec : String → G) (cw : String → Nat) (hsp : cw "2
     rw [Lemmas.RenderClip.renderFrameC_eq]; rfl
   rw [htoks, stepHC_eq]
   rw [stepHC_eq] at hcur
-  obtain ⟨e', hr, hl, ag, sh, hf⟩ := frame_shows_gen dec cw hsp hd hemp rows cols s e (clipIn cw fi) hready hsim hag
+  obtain ⟨e', hr, hl, ag, sh, hf⟩ := frame_shows_gen dec cw hsp hd hemp hlp rows cols s e (clipIn cw fi) hready hsim hag
     (clipIn_ok cw emuCaps hsp rows cols fi hok) (clipIn_emuOk dec cw hsp hd fi hok2) hcur
   refine ⟨e', hr, hl, ag, ?_, hf⟩
   have hs1 := sh.1
@@ -112,7 +112,7 @@ structure LinkedR (dec : String → G) (cw : String → Nat) (s : HState) (e : E
   alt : e.mode.smcup = true
 
 /-- A frame from a linked state (any frame kind). -/
-theorem frame_alt (dec : String → G) (cw : String → Nat) (hsp : cw "20" = 1) (hd : dec "20" = [32]) (hemp : dec "" = [])
+theorem frame_alt (dec : String → G) (cw : String → Nat) (hsp : cw "20" = 1) (hd : dec "20" = [32]) (hemp : dec "" = []) (hlp : LpOk dec)
     (rows cols : Nat) (s : HState) (e : Emu) (fi : FrameIn) (hl : LinkedAlt dec cw s e rows cols)
     (hok : FrameInOkC cw emuCaps rows cols fi) (hok2 : EmuFrameOk dec cw fi) :
     ∃ e', runOps e (opsOfToks dec cw (renderFrameC cw (mkFrame emuCaps s fi)).2) = .ok e' ∧
@@ -121,12 +121,12 @@ theorem frame_alt (dec : String → G) (cw : String → Nat) (hsp : cw "20" = 1)
     rw [stepHC_eq]
     refine C01.cursor_as_requested cw cw (mkFrame emuCaps s (clipIn cw fi)) s.t ?_ hl.linked.cursor
     rw [hl.linked.ready.trows, hl.linked.ready.tcols]; exact hok.2.2.2
-  obtain ⟨e', hr, l1, a1, sh, hf⟩ := frame_shows_genC dec cw hsp hd hemp rows cols s e fi hl.linked.ready hl.linked.sim
+  obtain ⟨e', hr, l1, a1, sh, hf⟩ := frame_shows_genC dec cw hsp hd hemp hlp rows cols s e fi hl.linked.ready hl.linked.sim
     (fun _ => hl.agree) hok hok2 hcur
   exact ⟨e', hr, ⟨l1, a1, by rw [hf.smcup]; exact hl.alt⟩, sh⟩
 
 /-- The REFRESH frame after a resize: the cursor clause does not need the previous position. -/
-theorem frame_after_resize (dec : String → G) (cw : String → Nat) (hsp : cw "20" = 1) (hd : dec "20" = [32]) (hemp : dec "" = [])
+theorem frame_after_resize (dec : String → G) (cw : String → Nat) (hsp : cw "20" = 1) (hd : dec "20" = [32]) (hemp : dec "" = []) (hlp : LpOk dec)
     (rows cols : Nat) (s : HState) (e : Emu) (fi : FrameIn) (hl : LinkedR dec cw s e rows cols)
     (hrf : fi.refresh = true)
     (hok : FrameInOkC cw emuCaps rows cols fi) (hok2 : EmuFrameOk dec cw fi) :
@@ -158,7 +158,7 @@ theorem frame_after_resize (dec : String → G) (cw : String → Nat) (hsp : cw 
     rw [stepHC_eq]
     refine Lemmas.RenderCursor.cursor_nonempty cw cw (mkFrame emuCaps s (clipIn cw fi)) s.t ?_ hne hl.vis
     rw [hl.ready.trows, hl.ready.tcols]; exact hok.2.2.2
-  obtain ⟨e', hr, l1, a1, sh, hf⟩ := frame_shows_genC dec cw hsp hd hemp rows cols s e fi hl.ready hl.sim
+  obtain ⟨e', hr, l1, a1, sh, hf⟩ := frame_shows_genC dec cw hsp hd hemp hlp rows cols s e fi hl.ready hl.sim
     (fun h => by rw [hrf] at h; cases h) hok hok2 hcur
   exact ⟨e', hr, ⟨l1, a1, by rw [hf.smcup]; exact hl.alt⟩, sh⟩
 
@@ -235,7 +235,7 @@ def runSegs (dec : String → G) (cw : String → Nat) : HState → Emu → List
     runSegs dec cw (sg.frames.foldl (stepHC cw emuCaps) s1) e2 rest
 
 /-- Frames of one size from a linked state: no panic, linked at the end, the last frame shown. -/
-theorem frames_alt (dec : String → G) (cw : String → Nat) (hsp : cw "20" = 1) (hd : dec "20" = [32]) (hemp : dec "" = [])
+theorem frames_alt (dec : String → G) (cw : String → Nat) (hsp : cw "20" = 1) (hd : dec "20" = [32]) (hemp : dec "" = []) (hlp : LpOk dec)
     (rows cols : Nat) :
     ∀ (fis : List FrameIn) (s : HState) (e : Emu), LinkedAlt dec cw s e rows cols →
       (∀ fi ∈ fis, FrameInOkC cw emuCaps rows cols fi ∧ EmuFrameOk dec cw fi) →
@@ -246,7 +246,7 @@ theorem frames_alt (dec : String → G) (cw : String → Nat) (hsp : cw "20" = 1
   | nil => intro s e hl _; exact ⟨e, rfl, hl, fun fi h => by simp at h⟩
   | cons a rest ih =>
     intro s e hl hok
-    obtain ⟨e1, hr1, hl1, sh1⟩ := frame_alt dec cw hsp hd hemp rows cols s e a hl (hok a (by simp)).1 (hok a (by simp)).2
+    obtain ⟨e1, hr1, hl1, sh1⟩ := frame_alt dec cw hsp hd hemp hlp rows cols s e a hl (hok a (by simp)).1 (hok a (by simp)).2
     obtain ⟨e2, hr2, hl2, sh2⟩ := ih (stepHC cw emuCaps s a) e1 hl1 (fun fi h => hok fi (by simp [h]))
     refine ⟨e2, by simp only [runFramesC, hr1, bind, Except.bind]; exact hr2, hl2, ?_⟩
     intro fi hlast
@@ -262,7 +262,7 @@ theorem frames_alt (dec : String → G) (cw : String → Nat) (hsp : cw "20" = 1
       exact sh2 fi hlast
 
 /-- One segment. -/
-theorem seg_alt (dec : String → G) (cw : String → Nat) (hsp : cw "20" = 1) (hd : dec "20" = [32]) (hemp : dec "" = [])
+theorem seg_alt (dec : String → G) (cw : String → Nat) (hsp : cw "20" = 1) (hd : dec "20" = [32]) (hemp : dec "" = []) (hlp : LpOk dec)
     (rows cols : Nat) (s : HState) (e : Emu) (hl : LinkedR dec cw s e rows cols) (sg : Seg) (hsg : SegOk dec cw sg) :
     ∃ e1 e2, runOps e [.resize sg.cols sg.rows] = .ok e1 ∧
       runFramesC dec cw (afterResize sg.cols sg.rows e1 s) e1 sg.frames = .ok e2 ∧
@@ -276,8 +276,8 @@ theorem seg_alt (dec : String → G) (cw : String → Nat) (hsp : cw "20" = 1) (
   | cons a rest =>
     have ha : a.refresh = true := hhead a (by rw [hf]; rfl)
     have hoka := hfr a (by rw [hf]; simp)
-    obtain ⟨e2, hr2, hl2, sh2⟩ := frame_after_resize dec cw hsp hd hemp sg.rows sg.cols _ e1 a lr ha hoka.1 hoka.2
-    obtain ⟨e3, hr3, hl3, sh3⟩ := frames_alt dec cw hsp hd hemp sg.rows sg.cols rest _ e2 hl2
+    obtain ⟨e2, hr2, hl2, sh2⟩ := frame_after_resize dec cw hsp hd hemp hlp sg.rows sg.cols _ e1 a lr ha hoka.1 hoka.2
+    obtain ⟨e3, hr3, hl3, sh3⟩ := frames_alt dec cw hsp hd hemp hlp sg.rows sg.cols rest _ e2 hl2
       (fun fi h => hfr fi (by rw [hf]; simp [h]))
     refine ⟨e1, e3, hr1, by simp only [runFramesC, hr2, bind, Except.bind]; exact hr3, hl3.toR, ?_⟩
     intro fi hlast
@@ -302,7 +302,7 @@ theorem seg_alt (dec : String → G) (cw : String → Nat) (hsp : cw "20" = 1) (
     closed under truncation of the history, after EVERY frame of every segment — its grid shows the
     application's screen cell for cell and its cursor is as requested, at the size of that segment. -/
 theorem emu_shows_across_resizes (dec : String → G) (cw : String → Nat) (hsp : cw "20" = 1) (hd : dec "20" = [32])
-    (hemp : dec "" = []) :
+    (hemp : dec "" = []) (hlp : LpOk dec) :
     ∀ (segs : List Seg) (rows cols : Nat) (s : HState) (e : Emu), LinkedR dec cw s e rows cols →
       (∀ sg ∈ segs, SegOk dec cw sg) →
       ∃ e', runSegs dec cw s e segs = .ok e' ∧
@@ -313,7 +313,7 @@ theorem emu_shows_across_resizes (dec : String → G) (cw : String → Nat) (hsp
   | nil => intro rows cols s e _ _; exact ⟨e, rfl, fun sg h => by simp at h⟩
   | cons sg rest ih =>
     intro rows cols s e hl hok
-    obtain ⟨e1, e2, hr1, hr2, lr, sh⟩ := seg_alt dec cw hsp hd hemp rows cols s e hl sg (hok sg (by simp))
+    obtain ⟨e1, e2, hr1, hr2, lr, sh⟩ := seg_alt dec cw hsp hd hemp hlp rows cols s e hl sg (hok sg (by simp))
     obtain ⟨e3, hr3, h3⟩ := ih sg.rows sg.cols _ e2 lr (fun x hx => hok x (by simp [hx]))
     refine ⟨e3, by simp only [runSegs, hr1, hr2, bind, Except.bind]; exact hr3, ?_⟩
     intro sg' hlast
@@ -332,20 +332,20 @@ theorem emu_shows_across_resizes (dec : String → G) (cw : String → Nat) (hsp
     frame of every segment) the emulator's grid read back (`Model.C12Read.readScreen`) IS the
     application's screen and its cursor read back IS the requested cursor. -/
 theorem emu_reads_back_across_resizes (enc : G → String) (dec : String → G) (cw : String → Nat) (hsp : cw "20" = 1)
-    (hd : dec "20" = [32]) (hemp : dec "" = []) (segs : List Seg) (rows cols : Nat) (s : HState) (e : Emu)
+    (hd : dec "20" = [32]) (hemp : dec "" = []) (hlp : LpOk dec) (segs : List Seg) (rows cols : Nat) (s : HState) (e : Emu)
     (hl : LinkedR dec cw s e rows cols) (hok : ∀ sg ∈ segs, SegOk dec cw sg)
     (sg : Seg) (fi : FrameIn) (hsg : segs.getLast? = some sg) (hfi : sg.frames.getLast? = some fi)
     (he : C12Read.EncOk enc dec fi) :
     ∃ e', runSegs dec cw s e segs = .ok e' ∧
       Model.C12Read.readScreen enc e'.active = Expected.expectedC cw emuCaps fi.next ∧
       Model.C12Read.readCursor e' = C12Read.wantCursor fi := by
-  obtain ⟨e', hr, h⟩ := emu_shows_across_resizes dec cw hsp hd hemp segs rows cols s e hl hok
+  obtain ⟨e', hr, h⟩ := emu_shows_across_resizes dec cw hsp hd hemp hlp segs rows cols s e hl hok
   exact ⟨e', hr, C12Read.shows_reads_back enc dec cw fi e' ((h sg hsg).2.2 fi hfi) he⟩
 
 /-- After EVERY frame: for any frame `k` of any segment of an admissible history, the run over the
     history truncated after that frame ends in a state that shows it. -/
 theorem emu_shows_every_frame_resized (dec : String → G) (cw : String → Nat) (hsp : cw "20" = 1) (hd : dec "20" = [32])
-    (hemp : dec "" = []) (rows cols : Nat) (s : HState) (e : Emu) (hl : LinkedR dec cw s e rows cols)
+    (hemp : dec "" = []) (hlp : LpOk dec) (rows cols : Nat) (s : HState) (e : Emu) (hl : LinkedR dec cw s e rows cols)
     (pre post : List Seg) (sg : Seg) (hok : ∀ x ∈ pre ++ sg :: post, SegOk dec cw x)
     (k : Nat) (fk : FrameIn) (hk : sg.frames[k]? = some fk) :
     ∃ ek, runSegs dec cw s e (pre ++ [{ sg with frames := sg.frames.take (k + 1) }]) = .ok ek ∧ ShowsC dec cw fk ek ∧
@@ -364,7 +364,7 @@ theorem emu_shows_every_frame_resized (dec : String → G) (cw : String → Nat)
       | cons a r => simp only [hf, List.take_succ_cons, List.head?_cons] at hfi ⊢; exact hfi
     · intro fi hfi
       exact hsg.2.2 fi (List.mem_of_mem_take hfi)
-  obtain ⟨ek, hr, hsh⟩ := emu_shows_across_resizes dec cw hsp hd hemp (pre ++ [{ sg with frames := sg.frames.take (k + 1) }])
+  obtain ⟨ek, hr, hsh⟩ := emu_shows_across_resizes dec cw hsp hd hemp hlp (pre ++ [{ sg with frames := sg.frames.take (k + 1) }])
     rows cols s e hl (by
       intro x hx
       rcases List.mem_append.mp hx with h | h
@@ -426,7 +426,7 @@ open VaxisModel.Model.EmuDraw VaxisModel.Lemmas.C12Draw VaxisModel.Lemmas.EmuDra
     and landing on the host cell with the same coordinates; the cursor shown in a focused window is the
     application's cursor. -/
 theorem emu_draw_across_resizes (dec : String → G) (cw : String → Nat) (hsp : cw "20" = 1) (hd : dec "20" = [32])
-    (hemp : dec "" = []) (segs : List Seg) (rows cols : Nat) (s : HState) (e : Emu)
+    (hemp : dec "" = []) (hlp : LpOk dec) (segs : List Seg) (rows cols : Nat) (s : HState) (e : Emu)
     (hl : LinkedR dec cw s e rows cols) (hok : ∀ sg ∈ segs, SegOk dec cw sg)
     (sg : Seg) (fi : FrameIn) (hsg : segs.getLast? = some sg) (hfi : sg.frames.getLast? = some fi) (focused : Bool) :
     ∃ (e' : Emu) (per : List (List DrawCall)), runSegs dec cw s e segs = .ok e' ∧
@@ -440,7 +440,7 @@ theorem emu_draw_across_resizes (dec : String → G) (cw : String → Nat) (hsp 
             setCellChain sg.cols sg.rows [Win.root sg.cols sg.rows] call.col call.row = some ((j : Int), (k : Int))) ∧
           (∀ (j : Nat) (d : DCell), drow[j]? = some d → d ≠ .cont → ∃ call ∈ l, call.col = (j : Int))) ∧
       shownCursor true e' true = (if fi.cursor.visible then some (fi.cursor.col, fi.cursor.row) else none) := by
-  obtain ⟨e', hr, h⟩ := emu_shows_across_resizes dec cw hsp hd hemp segs rows cols s e hl hok
+  obtain ⟨e', hr, h⟩ := emu_shows_across_resizes dec cw hsp hd hemp hlp segs rows cols s e hl hok
   obtain ⟨hi, _, hs⟩ := h sg hsg
   have hsh := hs fi hfi
   have hsgok := hok sg (List.mem_of_getLast? hsg)
@@ -489,7 +489,7 @@ example :
       ShowsC decEx cwEx fi2 e' := by
   intro fi0 fi1 fi2
   obtain ⟨e0, h0, hl⟩ := emu_real_startup_on_alt decEx cwEx rfl
-  have hcell : ∀ c : Cell, (c.sixel = false ∧ c.w = 0 ∧ c.style.ulStyle = 0) → (cwEx c.g ≤ 2 ∧ (cwEx c.g ≠ 0 → decEx c.g ≠ []) ∧ 59 ∉ decEx c.style.linkParams) →
+  have hcell : ∀ c : Cell, (c.sixel = false ∧ c.w = 0 ∧ c.style.ulStyle = 0) → (cwEx c.g ≤ 2 ∧ (cwEx c.g ≠ 0 → decEx c.g ≠ [])) →
       (c.sixel = false ∧ 0 ≤ c.w ∧ Lemmas.RenderDisplay.WidthOk cwEx emuCaps c) ∧ CellOk decEx cwEx c :=
     fun c h1 h2 => ⟨⟨h1.1, by rw [h1.2.1]; decide, Or.inl h1.2.1⟩, h2⟩
   have hgrid : ∀ g : Grid, (g = grid1 ∨ g = grid2 ∨ g = gridF02 ∨ g = gridW) → ∀ r ∈ g, ∀ c ∈ r,
@@ -518,7 +518,7 @@ example :
       FrameInOkC cwEx emuCaps rows cols fi ∧ EmuFrameOk decEx cwEx fi :=
     fun fi rows cols hg h1 h2 h3 h4 =>
       ⟨⟨h1, h2, fun r hr c hc => (hgrid _ hg r hr c hc).1, h4⟩, fun r hr c hc => (hgrid _ hg r hr c hc).2, h3⟩
-  obtain ⟨e', hr, hsh⟩ := emu_shows_across_resizes decEx cwEx rfl rfl rfl
+  obtain ⟨e', hr, hsh⟩ := emu_shows_across_resizes decEx cwEx rfl rfl rfl lpOk_decEx
     [⟨3, 1, [fi0, fi1]⟩, ⟨2, 1, [fiF02]⟩, ⟨5, 5, []⟩, ⟨7, 2, [fi2]⟩] 6 20 (startState 20 6) e0 hl (by
       intro sg hsg
       simp only [List.mem_cons, List.not_mem_nil, or_false] at hsg
